@@ -510,7 +510,7 @@ def World.init (vals : List Val) (err : Option Err) (orc : List Bool) : World :=
 /-- Iterating the same `Stream` object again: `Stream.__iter__` calls `__iter__` of the last
     streamlet, which starts a new generator; every generator keeps its state in locals
     (`Batcher.batch`, `Header.n`, `Tailer.data`, `Shuffler.buffer`, the `Buffer` queue and thread, …)
-    and — with F22 repaired — `Mapper.__iter__` takes a fresh `Accumulator`.  So all stages start
+    and — with F23 repaired — `Mapper.__iter__` takes a fresh `Accumulator`.  So all stages start
     over, whatever state the previous iteration left behind. -/
 def rebuild (ss : List Stage) : List Stage := ss.map (fun g => Stage.init g.op)
 
